@@ -230,6 +230,10 @@ def bounded_for(c, tier, seed):
 
 # ---------------------------------------------------------------- the per-author bypass map (an input of the contract)
 def extra(rep, tier, seed, budget):
+    # the approval / change-request sets are inputs of the contract; on GitHub they are computed by the adapter's
+    # review summary (bounded stand-in, labelled bounded)
+    from bounded import github_adapter as _gh
+    _gh.integrate(rep, ('review_summary',))
     from bounded import userdict as _ud
     _ud.integrate(rep)
     from specs import shared_facts as _sf
